@@ -63,6 +63,7 @@ def run(idx: ProgramIndex, rep: Report, tier: str):
     from .c03 import detach_neutral
     detach_neutral(idx, rep, rule="C04-6", only_functions={"get_fantasy_strategy", "get_fantasy_model"}, floor=1)
     lazy_references(idx, rep)
+    residual_layout(idx, rep)
     rep.assume("exception safety is outside the statement: a deepcopy that raises (e.g. non-leaf cached tensors) leaves the source with nulled attributes, but then no fantasy model was created")
 
 
@@ -587,3 +588,62 @@ def lazy_references(idx: ProgramIndex, rep: Report):
                             "the joint prior is evaluated by the copy" if ok else
                             "the joint prior `%s` is produced by the source model's modules and handed over lazily: the fantasy strategy's train_prior_dist keeps a reference to the source's kernel, so changing the source afterwards changes the fantasy model's predictions" % " ".join(src(a).split())[:40], {})
     rep.floor("C04-7", "joint priors handed to get_fantasy_strategy", n, 1)
+
+
+# ---- C04-8: the bordered-system residual is formed in one layout -----------------------------------------------------------
+def residual_layout(idx: ProgramIndex, rep: Report):
+    """In get_fantasy_strategy the residual y_f - m_f - U' alpha is the right-hand side of the small system.  U' alpha is a product
+    with the flattened (point x task) cross covariance, i.e. a flat vector; in the multitask case targets and fantasy mean are
+    (.., m, t)-shaped (`view(.., -1, num_tasks)`).  They have to be flattened (interleaved, like the covariance) before the
+    subtraction; otherwise the shapes only broadcast for m = 1."""
+    from ..symbolic import inline, walk_paths
+    rep.rule("C04-8", "multitask fantasies: targets and fantasy mean are flattened like the covariance before the flat cross term is subtracted")
+    D = idx.find_class("DefaultPredictionStrategy")
+    fi = idx.method(D, "get_fantasy_strategy", own=True)
+    n = 0
+
+    def kind(e: ast.AST) -> str:
+        """NAT: carries an explicit (.., points, tasks) view; FLAT: a product with a covariance block; ?: neither"""
+        t = " ".join(src(e).split())
+        if isinstance(e, ast.Call) and isinstance(e.func, ast.Attribute) and e.func.attr in ("reshape", "view", "flatten") and e.args and src(e.args[-1]) == "-1":
+            return "FLAT"
+        if isinstance(e, ast.Call) and chain(e.func) in ("torch.einsum", "torch.matmul"):
+            return "FLAT"
+        if isinstance(e, ast.Call) and isinstance(e.func, ast.Attribute) and e.func.attr in ("matmul",):
+            return "FLAT"
+        if isinstance(e, ast.Subscript):
+            return kind(e.value)
+        if isinstance(e, ast.Call) and isinstance(e.func, ast.Attribute) and e.func.attr == "view" and len(e.args) >= 2 and "num_tasks" in src(e.args[-1]) or "event_shape[-1]" in t[-40:]:
+            return "NAT"
+        if isinstance(e, ast.BinOp) and isinstance(e.op, (ast.Add, ast.Sub)):
+            a, b = kind(e.left), kind(e.right)
+            if "MIX" in (a, b) or ({a, b} == {"NAT", "FLAT"}):
+                return "MIX"
+            return a if a != "?" else b
+        return "?"
+
+    seen = set()
+    for path, seq in walk_paths(fi):
+        multitask = None
+        for s_ in path.steps:
+            if s_.kind == "assume" and "isinstance(full_output, MultitaskMultivariateNormal)" in " ".join(src(s_.node).split()):
+                neg = src(s_.node).strip().startswith("not ")
+                multitask = (bool(s_.truth) != neg)
+        if not multitask:
+            continue
+        for st, env in seq:
+            if isinstance(st, ast.Assign) and isinstance(st.value, ast.BinOp) and isinstance(st.value.op, ast.Sub) and len(st.targets) == 1 and isinstance(st.targets[0], ast.Name):
+                v = inline(st.value, env)
+                k = kind(v)
+                if k == "?" or st.lineno in seen:
+                    continue
+                # only residuals that involve the cross term
+                if not any(isinstance(x, ast.Call) and chain(x.func) == "torch.einsum" for x in ast.walk(v)):
+                    continue
+                seen.add(st.lineno)
+                n += 1
+                ok = k != "MIX"
+                rep.add("C04-8", "%s:DefaultPredictionStrategy.get_fantasy_strategy[residual, multitask]" % D.module.name, "%s:%d" % (fi.module.relpath, st.lineno), ok,
+                        "targets, fantasy mean and cross term are combined in one layout" if ok else
+                        "`%s` subtracts the flat (points x tasks) cross term from (.., m, t)-shaped targets / fantasy mean: the shapes broadcast only for a single fantasy point" % " ".join(src(st.value).split())[:60], {})
+    rep.floor("C04-8", "multitask residuals of the bordered system", n, 1)
